@@ -12,6 +12,7 @@
      Tree.count           = len(self._node_by_id);  __len__ = count;  bool(tree) = (len(tree) != 0)
      Tree.first_child()/last_child() = self._root.first_child()/last_child()
      Tree.get_random_node()= nbid[random.choice(list(nbid.keys()))]
+     Node.__eq__(other)   = self._data == (other._data if isinstance(other, Node) else other);   no __hash__
 
    [reg] is the key order of `_node_by_id` (an input, as in Search.v); `random` is an explicit stream reader (the
    harness replaces the module object `nutree.tree.random`): choice(seq) = seq[draw mod len(seq)], IndexError on an
@@ -53,6 +54,14 @@ Definition tree_bool (reg : list nat) : bool := negb (Nat.eqb (tree_len reg) 0).
 Definition E_NOTIMPL : Z := 5%Z.
 Definition E_INDEX : Z := 8%Z.          (* IndexError has no class of its own in harness/common.py:err_class *)
 Definition tree_eq {X} (other : X) : Z + bool := inl E_NOTIMPL.
+
+(* ---- Node.__eq__ / hash(node) ------------------------------------------------------------------------------------- *)
+(* `node == other`: the DATA objects are compared (other._data for a Node, other itself for anything else); identity, kind,
+   data_id and position play no role.  Node defines __eq__ and no __hash__: hash(node) raises TypeError. *)
+Definition node_eq (a b : rt) : bool := Z.eqb (i_eqc (rinfo a)) (i_eqc (rinfo b)).
+Definition node_eq_obj (a : rt) (eqc_other : Z) : bool := Z.eqb (i_eqc (rinfo a)) eqc_other.
+Definition E_TYPE : Z := 7%Z.
+Definition node_hash {X} (node : X) : Z + Z := inl E_TYPE.
 
 (* ---- Tree.get_random_node ------------------------------------------------------------------------------------------ *)
 Definition choice {X} (draw : Z) (l : list X) : option X :=
